@@ -113,6 +113,15 @@ Theorem c19_extension_lenient_refuted :
   (forall bytes, e_ext ex_short = Some bytes -> firstn 32 bytes <> ex_root).
 Proof. exact lenient_refuted. Qed.
 
+(* A parent digest spans from its left child's start to its right child's END in epoch, timestamp and
+   compact target (RFC 0044); with the end compact target taken from the right child's start, the root
+   over four leaves whose target changes inside the right subtree ends on the wrong target — and every
+   chain root above it differs (the harness compares all ten fields of every node with its own merge). *)
+Theorem c19_merge_end_target_from_start_refuted :
+  root fdig fmerge ex_fleaves = Some ((0, 3, 40), (0, 100, 50), (1, 103, 70))%N /\
+  root fdig fmerge_end_target_from_start ex_fleaves = Some ((0, 3, 40), (0, 100, 50), (1, 103, 60))%N.
+Proof. exact merge_end_target_from_start_refuted. Qed.
+
 Redirect "out/C19.c19_nodes_prefix" Print Assumptions c19_nodes_prefix.
 Redirect "out/C19.c19_mmr_size" Print Assumptions c19_mmr_size.
 Redirect "out/C19.c19_peaks_read_back" Print Assumptions c19_peaks_read_back.
@@ -128,3 +137,4 @@ Redirect "out/C19.c19_accepted_blocks_commit_the_root" Print Assumptions c19_acc
 Redirect "out/C19.c19_extension_before_activation" Print Assumptions c19_extension_before_activation.
 Redirect "out/C19.c19_extension_example" Print Assumptions c19_extension_example.
 Redirect "out/C19.c19_extension_lenient_refuted" Print Assumptions c19_extension_lenient_refuted.
+Redirect "out/C19.c19_merge_end_target_from_start_refuted" Print Assumptions c19_merge_end_target_from_start_refuted.
